@@ -227,6 +227,7 @@ class Explorer:
             try:
                 rt.op(th, 'begin')
                 th.run()
+                child.extra['ending'] = 'returned'   # how the thread ends is part of its local state (fingerprint)
                 rt.op(th, 'exit')
                 status = ('returned', None)
             except Abort:
@@ -234,6 +235,7 @@ class Explorer:
             except BaseException as e:  # uncaught exception ends the thread
                 if rt.aborting:
                     raise Abort()
+                child.extra['ending'] = f'raised {type(e).__name__}: {e}'
                 rt.op(th, 'exit')
                 status = ('raised', f'{type(e).__name__}: {e}')
             if explore:
